@@ -349,8 +349,8 @@ def illState (env : Env) : Nat → Json → Str → Json → Json → Json → N
           let mc : Nat := match fld state "MaxConcurrency" with | some (.num n) => n.toNat | _ => 0
           illItems env fuel proc selector input items 0 mc st.clock ctx st ||
             illJoin env fuel states name state data ctx retries
-              (runItems env fuel proc selector input items 0 mc st.clock ctx st).1
-              (runItems env fuel proc selector input items 0 mc st.clock ctx st).2
+              (runItems env fuel proc selector input items 0 mc st.clock ctx false st).1
+              (runItems env fuel proc selector input items 0 mc st.clock ctx false st).2
     else true                                                                        -- site (c)
 termination_by structural fuel => fuel
 
